@@ -85,7 +85,7 @@ class Tags:
         :param tag:
         :return:
         """
-        if not isinstance(tag, str) or Tags.compiled_pattern.match(tag) is None:
+        if not isinstance(tag, str) or Tags.compiled_pattern.fullmatch(tag) is None:
             raise TagException(f'Tag {tag} does not match expected pattern {Tags.TAG_PATTERN}')
 
     def __iter__(self):
